@@ -7,7 +7,7 @@ import time
 from . import compdb
 
 KNOWN = os.path.join(compdb.VERIF, "known_findings.json")
-EVIDENCE = os.path.join(compdb.VERIF, "evidence")
+EVIDENCE = os.environ.get("MMD_EVIDENCE") or os.path.join(compdb.VERIF, "evidence")
 REPLAY = os.path.join(compdb.VERIF, ".work", "replay")
 
 
